@@ -6,6 +6,11 @@ HOOK_COMMITS = ["db46fe7"]
 
 # id -> technique (the deciding method, in a few words)
 TECH = {
+ "C04": "mutation-based and generative proptest with a no-panic oracle over compile -> render diagnostics -> final_type_info -> run: corpus mutation (26 kinds), token soup, generated programs, stdlib calls in killable workers",
+ "C12": "two-pass metamorphic proptest: definition x perturbations x constant-dependent probe; the program with the variable vs the program with the literal of its observed runtime value",
+ "C15": "proptest over mutation-heavy programs x read-only path sets x events: values at read-only paths compared before/after every accepted run",
+ "C16": "proptest with a logging Target wrapper: every runtime read/insert/remove path must be covered by ProgramInfo.target_queries / target_assignments",
+ "C17": "fault-injection proptest (and exhaustive single-fault enumeration on source cases): Err-returning vs skipping Target wrappers must agree; root-read failure ends with an error",
  "C01": "proptest over generated programs x events x external kinds (default / exact / widened): membership of result, returned value, final event/metadata and probed variables in the compiler's reported types, decided by an independent membership predicate",
  "C02": "proptest over generated `!`-free, abort-free programs x events x external kinds: no runtime error (NaN exempt), ProgramInfo consistency, and a hook recorder for infallible-typed sites that fail even when the error is swallowed",
  "C06": "differential proptest: generated programs with `return` injected at every grammar position vs reference interpreter; pinned source-level regressions",
